@@ -655,8 +655,8 @@ func (a Int) M__round__(digits Object) (Object, error) {
 		scale := Int(math.Pow(10, float64(-b)))
 		digits := r % scale
 		r -= digits
-		// Round
-		if 2*digits >= scale {
+		// Round half to even
+		if 2*digits > scale || (2*digits == scale && (r/scale)%2 != 0) {
 			r += scale
 		}
 		if negative {
